@@ -1006,3 +1006,7 @@ Proof.
   eexists. eexists. split; [vm_compute; reflexivity|]. cbv zeta. split; [vm_compute; reflexivity|].
   repeat split; vm_compute; reflexivity.
 Qed.
+
+(* the second symbol file of the correspondence run (module flag 3) *)
+Example c11_nonvacuous_alt_table : wf_file Driver.alt_file /\ build_symtab Driver.alt_file = Ret Driver.alt_table.
+Proof. split; [unfold Driver.alt_file; cbn [rf_funcs rf_publics rf_win_fd rf_win_fpo]; wf_tac|vm_compute; reflexivity]. Qed.
